@@ -47,8 +47,11 @@ def bucket_union(table, c):
 
 
 def check(run):
-    from checks.main import defaults_bounded
+    from checks.main import defaults_bounded, transforms_bounded
     defaults_bounded(run)      # default-value sweetening (bounded)
+    # the structural transforms and their inverse laws, and that they hand a
+    # TREE on (A-TREE preservation): bounded
+    transforms_bounded(run)
     raw = langs.native_tables(run.repo)
     for k, want in C09.PYYAML_PINS.items():
         if raw[k] != want:
